@@ -741,7 +741,7 @@ func main() {
 	r := hx.NewRNG(c.Seed)
 	ntrie, nstate := 400, 120
 	if c.Thorough() {
-		ntrie, nstate = 20000, 4000
+		ntrie, nstate = 8000, 1500
 	}
 	for i := 0; i < ntrie; i++ {
 		tc := genTrieCase(r.Fork(uint64(i)))
